@@ -9,9 +9,9 @@ from .. import exact as X
 from .c07 import hx, unhx
 
 MANIFEST = dict(
-    technique="Lean 4 proof over Q (polynomial lists: evaluation, minutes->seconds conversion, formal derivative = analytic derivative (Mathlib HasDerivAt), Taylor shift, searchsorted selection on sorted span ends, merge loop covers every span, range errors) + differential correspondence of PhasePredictor.from_polyco/__call__/f0/phasepol/time_at/intervals on generated tempo-style polyco texts against the model and an exact-Fraction evaluation of the tempo formula on the file's decimal strings",
-    level_text="proved: parsed entry evaluates to RPHASE + 60*DT*F0 + sum COEFF(i) DT^(i-1) for every coefficient count and sign; f0 and its derivatives are exact derivatives and commute with the minutes->seconds substitution; phasepol re-centring reproduces the prediction for all x; the searchsorted entry contains the time whenever any entry does (sorted equal spans); every span is covered by a merged interval; outside all intervals -> ValueError; tied: generated files (1-12 entries, 3-15 coefficients, D/E exponents, RPHASE to 1e12, gaps/overlaps/touching spans) parsed by the real code and compared at 1e-8 cycle",
-    level_note="PARTIAL: float polynomial evaluation (validated at 1e-8 cycle) and scipy.optimize.root_scalar inside time_at are outside the model; 'exactly the spans merged where they touch' is proved as coverage + validated exactly, not fully characterised in Lean. Trusted: Lean kernel + Mathlib, hand model PbModel/Polyco.lean, astropy Time differences (the double dt the code derives is given to the model exactly)",
+    technique="Lean 4 proof over Q (polynomial lists: evaluation, minutes->seconds conversion, formal derivative = analytic derivative (Mathlib HasDerivAt), Taylor shift, searchsorted selection on sorted span ends, merge loop covers every span and is tight: intervals run span start to span end, contain only spans and gaps <= tol, and are separated by > tol; range errors) + differential correspondence of PhasePredictor.from_polyco/__call__/f0/phasepol/time_at/intervals on generated tempo-style polyco texts against the model and an exact-Fraction evaluation of the tempo formula on the file's decimal strings",
+    level_text="proved: parsed entry evaluates to RPHASE + 60*DT*F0 + sum COEFF(i) DT^(i-1) for every coefficient count and sign; f0 and its derivatives are exact derivatives and commute with the minutes->seconds substitution; phasepol re-centring reproduces the prediction for all x; the searchsorted entry contains the time whenever any entry does (sorted equal spans); every span is covered by a merged interval and the merged intervals contain nothing but spans and sub-tolerance gaps (exact characterisation); outside all intervals -> ValueError; tied: generated files (1-12 entries, 3-15 coefficients, D/E exponents, RPHASE to 1e12, gaps/overlaps/touching spans) parsed by the real code and compared at 1e-8 cycle",
+    level_note="PARTIAL: float polynomial evaluation (validated at 1e-8 cycle) and scipy.optimize.root_scalar inside time_at are outside the model. Trusted: Lean kernel + Mathlib, hand model PbModel/Polyco.lean, astropy Time differences (the double dt the code derives is given to the model exactly)",
 )
 
 
@@ -19,7 +19,7 @@ class Prop(PropBase):
     id = "C08"
     lean_targets = ["PbProps.C08"]
     theorems = ["Pb.C08." + t for t in ("C08_parse_eval", "C08_deriv", "C08_phasepol", "C08_index_contains",
-                                        "C08_intervals_cover", "C08_range_errors", "C08_source_literals")]
+                                        "C08_intervals_cover", "C08_intervals_exact", "C08_range_errors", "C08_source_literals")]
     trusted_base = ["PbModel/Polyco.lean (hand model)", "numpy.polynomial Polynomial.convert/deriv (values validated)",
                     "scipy.optimize.root_scalar (time_at)"]
     assumptions = ["non-negative RPHASE (the parser builds np.int64('0' + digits))", "times at least 2 microseconds from span edges (entry selection runs on double MJDs, 0.6 us resolution)"]
@@ -91,6 +91,13 @@ class Prop(PropBase):
                     off = rng.choice([0.0, 1.0, -1.0])
                 queries.append([k, off])
             pp = [[rng.randrange(len(entries)), rng.uniform(-span * 30 + 1, span * 30 - 1)] for _ in range(40)]
+            # reference times just inside a power of two seconds from TMID: there 1 - dt and -1 - dt fall into different
+            # binades, which is where re-centring by shifting the polynomial's domain loses the scale (F17)
+            k = 4
+            while 2 ** k < span * 30 - 2:
+                for sgn in (1, -1):
+                    pp += [[rng.randrange(len(entries)), sgn * (2 ** k - rng.random())] for _ in range(3)]
+                k += 1
             yield {"op": "polyco", "coherent": coherent, "pp": pp, "f0": f0, "span": span, "ncoef": ncoef, "entries": entries, "queries": queries}
 
     def _text(self, case):
